@@ -160,9 +160,33 @@ def _overlap(found, kept=()):
     return replcase.matches_overlap(repl) or bool(held & {i for m in repl for i in m})
 
 
+def nearly_symmetric(pat, atol):
+    """does the pattern fit onto itself, within the tolerance but not exactly, with its atoms in another (element-preserving) order?
+    Then one and the same copy is an occurrence in two inequivalent ways, and which of the two a search reports is its choice."""
+    import itertools
+    from vmon.oracle import refmatch
+    els = list(pat["elements"])
+    pos = np.asarray(pat["positions"], float)
+    n = len(els)
+    if n < 2 or n > 7:
+        return False
+    for perm in itertools.permutations(range(n)):
+        if all(i == j for i, j in enumerate(perm)) or any(els[i] != els[j] for i, j in enumerate(perm)):
+            continue
+        cls, rms, mx = refmatch.classify_assignment(pos, pos[list(perm)], atol)
+        if cls != "non" and mx > 1e-6:
+            return True
+    return False
+
+
 def check_aba(ctx, st, S, A, B, patA, patB, atol, seed, w, tol, fraction=1.0, sample="real", grown=False, kept=()):
     """A->B->A restores the multiset; after A->B no A is found"""
     import mofun
+    if nearly_symmetric(patA, atol) or nearly_symmetric(patB, atol):
+        # thorough run 16: H,S,O,H became H,S,S,H, which fits onto itself with the two S (and the two H) exchanged to within 0.19 A
+        # at tolerance 0.2 - the way back took that other numbering, legitimately, and put the O where the other S was
+        st.count("not_judged_pattern_fits_onto_itself_in_another_order_within_the_tolerance")
+        return 0
     if any(e in set(S.elements) for e in set(patB["elements"]) - set(patA["elements"])):
         st.count("not_judged_structure_contains_B_elements")
         return 0
